@@ -330,6 +330,11 @@ impl Baton {
         if r % den != 0 {
             return;
         }
+        // (a group's voluntary hand-overs are budgeted: a hand-over costs tens of microseconds of
+        // real time, and a large input offers hundreds of thousands of scheduling points)
+        if st.switches >= 4000 {
+            return;
+        }
         if let Some(next) = Baton::pick_other(&mut st, me) {
             st.turn = next;
             st.switches += 1;
